@@ -71,7 +71,33 @@ def custom() -> t.Dict[str, t.Any]:
         def unpack(cls, reader: t.Any, options: t.Any) -> "CustomFilter":
             return CustomFilter(value=reader.read_octet_string(ASN1Tag(TagClass.CONTEXT_SPECIFIC, cls.filter_id, False)).decode("utf-8"))
 
-    _CUSTOM.update(control=CustomControl, filter=CustomFilter, cred=CustomAuth)
+    @dataclasses.dataclass(frozen=True)
+    class CustomAuth2(CustomAuth):
+        auth_id: int = dataclasses.field(init=False, repr=False, default=1025)
+
+        @classmethod
+        def unpack(cls, reader: t.Any, options: t.Any) -> "CustomAuth2":
+            value = reader.read_octet_string(tag=ASN1Tag(TagClass.CONTEXT_SPECIFIC, cls.auth_id, False), hint="CustomAuth2.value").decode(options.string_encoding)
+            u, _, p = value.partition(":")
+            return CustomAuth2(username=u, password=p)
+
+    @dataclasses.dataclass(frozen=True)
+    class CustomControl2(CustomControl):
+        control_type: str = dataclasses.field(init=False, repr=False, default="1.2.3.5")
+
+        @classmethod
+        def unpack(cls, control_type: str, critical: bool, value: t.Optional[bytes], options: t.Any) -> "CustomControl2":
+            return CustomControl2(critical=critical, size=struct.unpack(">I", (value or b""))[0])
+
+    @dataclasses.dataclass(frozen=True)
+    class CustomFilter2(CustomFilter):
+        filter_id: int = dataclasses.field(init=False, repr=False, default=1025)
+
+        @classmethod
+        def unpack(cls, reader: t.Any, options: t.Any) -> "CustomFilter2":
+            return CustomFilter2(value=reader.read_octet_string(ASN1Tag(TagClass.CONTEXT_SPECIFIC, cls.filter_id, False)).decode("utf-8"))
+
+    _CUSTOM.update(control=CustomControl, filter=CustomFilter, cred=CustomAuth, control2=CustomControl2, filter2=CustomFilter2, cred2=CustomAuth2)
     return _CUSTOM
 
 
@@ -82,19 +108,30 @@ def custom_unit(role: str, typ: str, mid: int, rnd: random.Random) -> t.Tuple[by
 
     cc = custom()
     opts = M.PackingOptions()
+    variant = "2" if typ.endswith("2") else ""
+    typ = typ.rstrip("2")
+    if typ == "known":
+        # a library-known control without value (Show Deleted / Show Deactivated Link), sent by a peer with or without a value
+        oid = rnd.choice((proj.SHOW_DELETED_OID, proj.SHOW_DEACT_OID))
+        gen = s.LDAPControl(oid, rnd.random() < 0.5, rnd.choice((None, None, b"", b"peer-value-" + bytes([rnd.randrange(65, 91)]))))
+        if role == "server":
+            m0: t.Any = M.ExtendedRequest(mid, [gen], msggen.r_oid(rnd), None)
+            return m0.pack(opts), "extReq", gen
+        m0 = M.ExtendedResponse(mid, [gen], M.LDAPResult(M.LDAPResultCode(0), "", "", None), None, None)
+        return m0.pack(opts), "extResp", gen
     if typ == "control":
-        obj = cc["control"](critical=rnd.random() < 0.5, size=rnd.randrange(2**32))
+        obj = cc["control" + variant](critical=rnd.random() < 0.5, size=rnd.randrange(2**32))
         if role == "server":
             m: t.Any = M.ExtendedRequest(mid, [obj], msggen.r_oid(rnd), None)
             return m.pack(opts), "extReq", obj
         m = M.ExtendedResponse(mid, [obj], M.LDAPResult(M.LDAPResultCode(0), "", "", None), None, None)
         return m.pack(opts), "extResp", obj
     if typ == "filter":
-        obj = cc["filter"](value=msggen.r_text(rnd))
+        obj = cc["filter" + variant](value=msggen.r_text(rnd))
         flt = obj if rnd.random() < 0.5 else s.FilterAnd([s.FilterPresent("cn"), s.FilterNot(obj)])
         m = M.SearchRequest(mid, [], "", M.SearchScope.BASE, M.DereferencingPolicy.NEVER, 0, 0, False, flt, [])
         return m.pack(opts), "searchReq", obj
-    obj = cc["cred"](username="u" + str(rnd.randrange(100)), password=msggen.r_text(rnd).replace(":", ""))
+    obj = cc["cred" + variant](username="u" + str(rnd.randrange(100)), password=msggen.r_text(rnd).replace(":", ""))
     m = M.BindRequest(mid, [], 3, "", obj)
     return m.pack(opts), "bindReq", obj
 
@@ -129,13 +166,15 @@ def make_program(role: str, bysrc: t.Dict[str, t.List[t.Any]], length: int, rnd:
         u = rnd.random()
         src = es[0]["src"]
         if u < 0.18:
-            typ = rnd.choice(("control", "filter", "cred"))
+            typ = rnd.choice(("control", "filter", "cred")) + rnd.choice(("", "", "2"))
             prog.append({"t": "register", "type": typ, "expect": "ValueError" if typ in reg else "ok"})
             reg.add(typ)
             continue
         if u < 0.45 and src["st"] != "CLOSED":
-            typ = rnd.choice(types)
-            outcome = "typed" if typ in reg else "generic" if typ == "control" else "ProtocolError"
+            typ = rnd.choice(types) + rnd.choice(("", "", "2"))
+            if rnd.random() < 0.2:
+                typ = "known"
+            outcome = "known" if typ == "known" else "typed" if typ in reg else "generic" if typ.startswith("control") else "ProtocolError"
             if role == "client":
                 ids = src["out"]
                 if not ids:
@@ -145,7 +184,7 @@ def make_program(role: str, bysrc: t.Dict[str, t.List[t.Any]], length: int, rnd:
                     kind = "extResp"
             else:
                 mid = rnd.choice((1, 2, 3))
-                kind = {"control": "extReq", "filter": "searchReq", "cred": "bindReq"}[typ]
+                kind = {"control": "extReq", "filter": "searchReq", "cred": "bindReq", "known": "extReq"}[typ.rstrip("2")]
             if outcome is not None:
                 want = [{"k": "garbage", "id": 0}] if outcome == "ProtocolError" else [{"k": kind, "id": mid}]
                 edge = next((e for e in es if e["call"]["op"] == "recv" and e["call"]["ms"] == want), None)
@@ -172,7 +211,7 @@ def run_step(s: t.Any, role: str, step: t.Dict[str, t.Any], seed: str) -> t.Tupl
     diffs: t.List[t.Tuple[str, str, str]] = []
     if step["t"] == "register":
         cls = custom()[step["type"]]
-        fn = {"control": s.register_control, "filter": s.register_filter, "cred": s.register_auth_credential}[step["type"]]
+        fn = {"control": s.register_control, "filter": s.register_filter, "cred": s.register_auth_credential}[step["type"].rstrip("2")]
         try:
             fn(cls)
             res = "ok"
@@ -193,24 +232,74 @@ def run_step(s: t.Any, role: str, step: t.Dict[str, t.Any], seed: str) -> t.Tupl
         seen = "ProtocolError" if res == "ProtocolError" else res
         found = None
         if res == "ok" and len(got) == 1:
+            kept(s).append((got[0], snapshot(got[0])))
+        if outcome == "known":
+            if res == "ok" and len(got) == 1 and got[0].controls and got[0].controls[0].control_type == obj.control_type \
+                    and got[0].controls[0].critical == obj.critical and got[0].controls[0].value == obj.value:
+                seen = "known"
+            else:
+                seen = f"known-but-different:{res}"
+        elif res == "ok" and len(got) == 1:
             found = find_custom(got[0])
             if type(found) is type(obj):
-                seen = "typed" if found == obj or (step["type"] == "control" and found.size == obj.size and found.critical == obj.critical) else "typed-but-different"
-            elif step["type"] == "control" and type(found).__name__ == "LDAPControl":
+                seen = "typed" if found == obj or (step["type"].startswith("control") and found.size == obj.size and found.critical == obj.critical) else "typed-but-different"
+            elif step["type"].startswith("control") and type(found).__name__ == "LDAPControl":
                 same = found.control_type == obj.control_type and found.critical == obj.critical and found.value == obj.get_value(None)
                 seen = "generic" if same else "generic-but-different"
             else:
                 seen = f"other:{type(found).__name__}"
         if seen != outcome:
             diffs.append(("C19", f"custom-{step['type']}/{role}/{outcome}->{seen}",
-                          f"{role} received a unit with a custom {step['type']} ({'registered' if outcome == 'typed' else 'not registered'}): expected {outcome}, observed {seen} {exc}"))
+                          f"{role} received a unit with a {'known no-value control' if outcome == 'known' else 'custom ' + step['type']} ({'registered' if outcome == 'typed' else 'not registered'}): expected {outcome}, observed {seen} {exc}"))
         if s.state.name != step["edge"]["dst"]["st"]:
             diffs.append(("C19", f"custom-{step['type']}/{role}/state", f"state {s.state.name}, model {step['edge']['dst']['st']}"))
         return ("custom", step["type"], res, [proj.kind_of(m) for m in got], repr(found)[:80], raw.hex(), s.state.name), diffs
     e = step["edge"]
+    if e["call"]["op"] == "recv" and e["call"]["res"] == "ok" and e["call"]["ms"]:
+        # deliver through a wrapper that keeps the returned objects for the late check
+        orig = s.receive
+
+        def keeping(data: t.Any, _orig: t.Any = orig, _s: t.Any = s) -> t.Any:
+            got = _orig(data)
+            for m in got:
+                kept(_s).append((m, snapshot(m)))
+            return got
+
+        s.receive = keeping
+        try:
+            obs = sess.do_call(s, role, e["call"], rnd)
+        finally:
+            del s.receive
+        d = sess.compare(role, e, obs)
+        return ("edge", obs["res"], obs["ret"], tuple((m["k"], m["id"]) for m in obs["msgs"]), obs["raw_emit"].hex(), obs["state"]), d
     obs = sess.do_call(s, role, e["call"], rnd)
     d = sess.compare(role, e, obs)
     return ("edge", obs["res"], obs["ret"], tuple((m["k"], m["id"]) for m in obs["msgs"]), obs["raw_emit"].hex(), obs["state"]), d
+
+
+def snapshot(msg: t.Any) -> str:
+    """Everything a caller can read from a returned message, including the raw value of library-known controls."""
+    return json.dumps([proj.to_abstract(msg), [[type(c).__name__, c.control_type, c.critical, list(c.value) if c.value is not None else None] for c in msg.controls]], sort_keys=True)
+
+
+def kept(s: t.Any) -> t.List[t.Any]:
+    if not hasattr(s, "_vf_kept"):
+        s._vf_kept = []
+    return s._vf_kept
+
+
+def late_check(s: t.Any, role: str) -> t.Tuple[t.Any, t.List[t.Tuple[str, str, str]]]:
+    """Messages returned earlier are self-contained values: nothing that happened since - in this or any other
+    session - may have changed them."""
+    diffs = []
+    now = []
+    for m, snap in kept(s):
+        cur = snapshot(m)
+        now.append(cur)
+        if cur != snap:
+            for prop in ("C19", "C02"):
+                diffs.append((prop, f"returned-value-changed/{role}", f"a message returned earlier by a {role} session changed afterwards: {snap[:160]} -> {cur[:160]}"))
+    return ("late", tuple(now)), diffs
 
 
 def run_program(role: str, prog: t.List[t.Any], pid: str) -> t.Tuple[t.List[t.Any], t.List[t.Any]]:
@@ -220,6 +309,9 @@ def run_program(role: str, prog: t.List[t.Any], pid: str) -> t.Tuple[t.List[t.An
         entry, d = run_step(s, role, st, f"{pid}:{j}")
         tr.append(entry)
         diffs += d
+    entry, d = late_check(s, role)
+    tr.append(entry)
+    diffs += d
     return tr, diffs
 
 
@@ -232,6 +324,8 @@ def run_interleaved(ra: str, pa: t.List[t.Any], ia: str, rb: str, pb: t.List[t.A
             ta.append(run_step(sa, ra, pa[len(ta)], f"{ia}:{len(ta)}")[0])
         elif w == 2 and len(tb) < len(pb):
             tb.append(run_step(sb, rb, pb[len(tb)], f"{ib}:{len(tb)}")[0])
+    ta.append(late_check(sa, ra)[0])
+    tb.append(late_check(sb, rb)[0])
     return ta, tb
 
 
@@ -294,6 +388,48 @@ def run(tier: str, seed: int) -> int:
                 rep.violation(f"process-state-leak/{role}", f"the same {role} program gives a different transcript when run again later in the same process, after other sessions ran "
                               f"(step {j}): first {str(tr[j])[:140]}, later {str(tr2[j])[:140]}", {"role": role, "step": j})
         rep.traces += 2 * nlong
+        # ---- registry churn: many short-lived sessions with different registrations, one after the other.  What a
+        # session decodes depends on its own registrations only - not on those of sessions that existed before it.
+        nchurn = 400 if tier == "quick" else 5000
+        for n in range(nchurn):
+            role = "server" if n % 3 else "client"
+            typ = rnd.choice(("control", "filter", "cred")) if role == "server" else "control"
+            mine, other = (("", "2") if rnd.random() < 0.5 else ("2", ""))
+            sx = sess.new_session(role)
+            steps: t.List[t.Dict[str, t.Any]] = []
+            if role == "client":
+                sx.extended_request("1.2.3")
+                sx.extended_request("1.2.4")
+                sx.data_to_send()
+            registered = rnd.random() < 0.8
+            if registered:
+                steps.append({"t": "register", "type": typ + mine, "expect": "ok"})
+            warm = rnd.random() < 0.5 and typ != "cred"   # decode something ordinary first (a decoder may build tables lazily); a bind needs an idle session
+            order = [typ + mine, typ + other] if rnd.random() < 0.5 else [typ + other, typ + mine]
+            rep.case(("churn", n))
+            for st in steps:
+                _, d = run_step(sx, role, st, f"{seed}-churn{n}")
+                for prop, sig, text in d:
+                    rep.violation(sig, text + " [registry churn]", {"n": n, "role": role}, prop=prop)
+            if warm and role == "server":
+                try:
+                    sx.receive(custom_unit(role, "known", 30, rnd)[0])
+                except Exception:  # noqa: BLE001
+                    pass
+            for j, tv in enumerate(order):
+                if sx.state.name == "CLOSED":
+                    break
+                want = "typed" if (registered and tv == typ + mine) else "generic" if tv.startswith("control") else "ProtocolError"
+                mid = (1 + j) if role == "client" else 10 + j
+                kind = "extResp" if role == "client" else {"control": "extReq", "filter": "searchReq", "cred": "bindReq"}[typ]
+                if kind == "bindReq" and j > 0:
+                    break   # a second bind while the first is outstanding is a protocol error of its own
+                edge = {"dst": {"st": "CLOSED" if want == "ProtocolError" else ("BINDING" if kind == "bindReq" else "OPENED")}}
+                _, d = run_step(sx, role, {"t": "custom", "type": tv, "id": mid, "outcome": want, "edge": edge}, f"{seed}-churn{n}-{j}")
+                for prop, sig, text in d:
+                    rep.violation(sig, text + f" [registry churn: session {n} registered {typ + mine if registered else 'nothing'}]", {"n": n, "role": role, "registered": typ + mine if registered else None}, prop=prop)
+        rep.traces += nchurn
+        rep.add_part("spec->code: registry churn (short-lived sessions with alternating registrations; decode depends on own registrations only)", sessions=nchurn)
         rep.add_part("spec->code: long single-session programs (registry semantics per step; each program re-run after all others)", programs=nlong, length=14)
         npairs = 14 if tier == "quick" else 120
         runs = 0
